@@ -173,7 +173,10 @@ func (st *State) freshVal(prefix string, t types.Type) *Val {
 // wellFormed gives the type invariants every Go value satisfies: integer
 // ranges in int mode, 0 <= len <= cap and off >= 0 for slices, references not
 // beyond the allocation counter.
-func (st *State) wellFormed(v *Val) Tm {
+func (st *State) wellFormed(v *Val) Tm { return st.wellFormedAt(v, st.alloc) }
+
+// wellFormedAt: the type invariants with references bounded by the given allocation counter.
+func (st *State) wellFormedAt(v *Val, alloc Tm) Tm {
 	m := st.m
 	switch v.K {
 	case KInt:
@@ -183,22 +186,22 @@ func (st *State) wellFormed(v *Val) Tm {
 			}
 		}
 	case KPtr, KChan, KMap:
-		return tm(SBool, "(<= %s %s)", v.S.S, st.alloc.S)
+		return tm(SBool, "(<= %s %s)", v.S.S, alloc.S)
 	case KSlice:
 		z := m.idxLit(0)
 		return and(m.le(z, v.off()), m.le(z, v.ln()), m.le(v.ln(), v.cp()),
 			m.inRange(v.off(), goInt), m.inRange(v.cp(), goInt),
 			m.le(v.cp(), m.lit(maxLen, goInt)), m.le(v.off(), m.lit(maxLen, goInt)),
-			tm(SBool, "(<= %s %s)", v.arr().S, st.alloc.S),
+			tm(SBool, "(<= %s %s)", v.arr().S, alloc.S),
 			// nil slice has zero length and capacity
 			implies(eq(v.arr(), Tm{"0", SInt}), eq(v.cp(), z)))
 	case KString:
 		z := m.idxLit(0)
 		return and(m.le(z, v.off()), m.le(z, v.ln()), m.inRange(v.ln(), goInt), m.le(v.ln(), m.lit(maxLen, goInt)),
 			m.le(v.off(), m.lit(maxLen, goInt)),
-			tm(SBool, "(<= %s %s)", v.arr().S, st.alloc.S))
+			tm(SBool, "(<= %s %s)", v.arr().S, alloc.S))
 	case KIface:
-		f := and(tm(SBool, "(>= %s 0)", v.ityp().S), tm(SBool, "(<= %s %s)", v.ival().S, st.alloc.S))
+		f := and(tm(SBool, "(>= %s 0)", v.ityp().S), tm(SBool, "(<= %s %s)", v.ival().S, alloc.S))
 		// a value of interface type I is nil or has a dynamic type implementing I
 		if v.T != nil && st.x != nil {
 			if it, ok := v.T.Underlying().(*types.Interface); ok && it.NumMethods() > 0 {
@@ -208,11 +211,11 @@ func (st *State) wellFormed(v *Val) Tm {
 		}
 		return f
 	case KFunc:
-		return tm(SBool, "(<= %s %s)", v.Fs[1].S.S, st.alloc.S)
+		return tm(SBool, "(<= %s %s)", v.Fs[1].S.S, alloc.S)
 	case KStruct, KTuple:
 		var cs []Tm
 		for _, f := range v.Fs {
-			cs = append(cs, st.wellFormed(f))
+			cs = append(cs, st.wellFormedAt(f, alloc))
 		}
 		return and(cs...)
 	}
@@ -386,6 +389,20 @@ func (m Mode) subLeaves(root types.Type, path []int) (prefix string, t types.Typ
 
 // load reads the value of type t (the pointee) through p from the given heap view.
 func (st *State) loadFrom(view map[string]Tm, p *Ptr) *Val {
+	v, _ := st.loadFromE(view, p)
+	return v
+}
+
+// loadFromE also tells whether every heap array read is the entry version of a mutable array
+// (never written, never havocked): what is stored there was stored before the function was
+// entered, so every reference in it is to an object that existed at entry (entryClosed).
+func (st *State) loadFromE(view map[string]Tm, p *Ptr) (*Val, bool) {
+	entry := true
+	note := func(key string, arr Tm) {
+		if !strings.HasPrefix(arr.S, "H0!") || st.immutableKey(key) {
+			entry = false
+		}
+	}
 	m := st.m
 	prefix, t := m.subLeaves(p.Root, p.Path)
 	ls := m.leaves(t)
@@ -395,24 +412,41 @@ func (st *State) loadFrom(view map[string]Tm, p *Ptr) *Val {
 		case PObj, PBox:
 			key := p.rootKey() + "|" + prefix + l.path
 			arr := st.viewGet(view, key, ArrOf(SInt, l.sort))
+			note(key, arr)
 			ts[i] = sel(arr, p.Base, l.sort)
 		case PGlobal:
 			key := "G|" + p.Glob + "|" + prefix + l.path
 			arr := st.viewGet(view, key, ArrOf(SInt, l.sort))
+			note(key, arr)
 			ts[i] = sel(arr, Tm{"0", SInt}, l.sort)
 		case PElem:
 			key := elemKey(p.Root) + "|" + prefix + l.path
 			inner := ArrOf(m.idx(), l.sort)
 			arr := st.viewGet(view, key, ArrOf(SInt, inner))
+			note(key, arr)
 			ts[i] = sel(sel(arr, p.Base, inner), p.Idx, l.sort)
 		}
 	}
 	v := m.build(t, ts)
-	return v
+	return v, entry && len(ls) > 0
+}
+
+// entryAlloc is the allocation counter at the entry of the function under verification.
+var entryAlloc = Tm{"0", SInt}
+
+// entryClosed: a value read from the entry heap through a reference that existed at entry refers
+// only to objects that existed at entry. (Objects an assumed contract returns as fresh may be
+// described without a heap write: nothing is said about what is read through a fresh reference.)
+func (st *State) entryClosed(p *Ptr, v *Val) Tm {
+	f := st.wellFormedAt(v, entryAlloc)
+	if p.Kind == PGlobal {
+		return f
+	}
+	return implies(tm(SBool, "(<= %s %s)", p.Base.S, entryAlloc.S), f)
 }
 
 func (st *State) load(p *Ptr) *Val {
-	v := st.loadFrom(st.heap, p)
+	v, entry := st.loadFromE(st.heap, p)
 	// name the leaves (keeps later terms small) and add type invariants
 	fl := v.flatten()
 	for i := range fl {
@@ -421,6 +455,9 @@ func (st *State) load(p *Ptr) *Val {
 	_, t := st.m.subLeaves(p.Root, p.Path)
 	v = st.m.build(t, fl)
 	st.assumeWellFormed(v)
+	if entry {
+		st.assume(st.entryClosed(p, v))
+	}
 	return v
 }
 
